@@ -19,7 +19,8 @@ import (
 func checkResultShape(r *Run, prog *Program, a *Anchors, fn *ssa.Function, pfx string) {
 	r.Analysed(fn.String())
 	ps := NewPathSim(prog)
-	ps.Inline = func(c *ssa.Function) bool { return false }
+	// constructor helpers (a function that assembles the Evaluator, one that parses) are interpreted in place
+	ps.Inline = func(c *ssa.Function) bool { return bexprHelper(prog, a, c) && !recursive(prog, c) }
 	sums := ps.Run(fn)
 	r.Floor(pfx+".result-shape", 2)
 	for _, sm := range sums {
